@@ -20,7 +20,7 @@ def run(tier, seed, flavour="plain"):
     od = core.run_dir("C11", tier)
     paths = core.build(targets(flavour))
     res = core.run_sharded([{"name": "c11_angle", "binary": paths["c11_angle"], "nshards": core.NCPU, "out": od,
-                             "args": ["--seed", str(seed), "--tier", tier] + core.deep(tier, pairs=1000000),
+                             "args": ["--seed", str(seed), "--tier", tier] + core.deep(tier, pairs=1000000) + core.boost(tier, flavour, pairs=160000),
                              "env": core.SAN_ENV if flavour == "san" else None}])
     V.absorb(res)
     m = core.merge_summaries(res)
